@@ -141,28 +141,50 @@ def fmt_field(name, t):
             "millisecond": "%03d" % (t.microsecond // 1000), "microsecond": "%06d" % t.microsecond}[name]
 
 
+FIELD_FMT = {"year": "%04d", "year2": "%02d", "month": "%02d", "day": "%02d", "doy": "%03d", "hour": "%02d"}
+
+
 class File:
-    def __init__(self, fid, t0, t1, users, stars):
+    """dir_over: {"<chunk index>:<field>": int} — value written into the directory name instead of
+    the field of t0 (misplaced files / directories with impossible dates; the coverage t0, t1 is
+    what the code parses from the whole path all the same)"""
+
+    def __init__(self, fid, t0, t1, users, stars, dir_over=None):
         self.id, self.t0, self.t1, self.users, self.stars = fid, t0, t1, dict(users), list(stars)
+        self.dir_over = dict(dir_over or {})
         self.rel = None
 
     def to_json(self):
-        return {"id": self.id, "t0": iso(self.t0), "t1": iso(self.t1), "users": self.users, "stars": self.stars}
+        o = {"id": self.id, "t0": iso(self.t0), "t1": iso(self.t1), "users": self.users, "stars": self.stars}
+        if self.dir_over:
+            o["dir_over"] = self.dir_over
+        return o
 
     @staticmethod
     def from_json(o):
-        return File(o["id"], from_iso(o["t0"]), from_iso(o["t1"]), o["users"], o["stars"])
+        return File(o["id"], from_iso(o["t0"]), from_iso(o["t1"]), o["users"], o["stars"], o.get("dir_over"))
+
+    def dir_value(self, k, field):
+        key = f"{k}:{field}"
+        if key in self.dir_over:
+            return self.dir_over[key]
+        return int(fmt_field(field, self.t0))
+
+    def displaced(self):
+        return any(v != int(fmt_field(key.split(":")[1], self.t0)) for key, v in self.dir_over.items())
 
 
 def render(tpl, f):
     """relative path of file f (list of components), independent of typhon's get_filename"""
     si = 0
     comps = []
-    for toks in tpl.dir_tokens + [tpl.name_tokens]:
+    for k, toks in enumerate(tpl.dir_tokens + [tpl.name_tokens]):
         s = ""
         for t in toks:
             if t[0] == "lit":
                 s += t[1]
+            elif t[0] == "f" and k < len(tpl.dir_tokens) and f"{k}:{t[1]}" in f.dir_over:
+                s += FIELD_FMT[t[1]] % f.dir_over[f"{k}:{t[1]}"]
             elif t[0] == "f":
                 s += fmt_field(t[1][4:], f.t1) if t[1].startswith("end_") else fmt_field(t[1], f.t0)
             elif t[0] == "u":
@@ -182,7 +204,7 @@ def level_token(tpl, k, f):
     tv, uv = {}, {}
     for t in tpl.dir_tokens[k]:
         if t[0] == "f" and t[1] not in tv:
-            tv[t[1]] = int(fmt_field(t[1], f.t0))
+            tv[t[1]] = f.dir_value(k, t[1])
         elif t[0] == "u" and t[1] not in uv:
             uv[t[1]] = f.users[t[1]]
     s = ",".join(f"{k_}={v}" for k_, v in tv.items())
@@ -486,10 +508,89 @@ def _dedupe(tpl, files):
 
 def honours(tpl, files):
     """the placement precondition of C01 as the harness understands it"""
+    if any(f.displaced() for f in files):
+        return False
     if not tpl.has_temporal_dirs():
         return True
     res = tpl.subdir_res()
     return all(f.t1 - f.t0 <= res for f in files)
+
+
+# ---------------------------------------------------------------- misplaced files, impossible directories
+MISPLACED_TEMPLATES = [
+    (["{year}", "{month}", "{day}"], "{year}{doy}_{hour}{minute}.dat"),
+    (["{year}", "{month}", "{day}", "{hour}"], "{year}{doy}_{minute}{second}.dat"),
+    (["{year}{month}{day}"], "{year}{doy}T{hour}{minute}.dat"),
+    (["{sat}", "{year}", "{month}{day}"], "{year}{doy}_{hour}{minute}_{sat}.dat"),
+    (["{year}", "{doy}"], "{month}{day}_{hour}{minute}.dat"),
+    (["{year}", "{doy}", "*"], "{month}{day}_{hour}.dat"),
+]
+BAD_MONTH_DAY = [(2, 30), (2, 31), (4, 31), (13, 1), (0, 5), (6, 0), (12, 32), (2, 29)]
+
+
+def gen_misplaced(rng, max_files=25):
+    """agree-only stream: files sitting in another day's directory and directories whose name is
+    not a date (2018/02/30, month 13, day 00, doy 000 / 366 / 367).  The coverage is still what
+    the code parses: the name carries {year}{doy} (a doy overrides month/day of the directory)
+    or, for {doy} directories, the directory's doy converted as the code does
+    (datetime(year,1,1) + timedelta(doy-1), year kept)."""
+    dirs, name = rng.choice(MISPLACED_TEMPLATES)
+    tpl = Template(dirs, name)
+    origin = gen_origin(rng, tpl)
+    if origin.year < 1000 or origin.year > 9000:
+        origin = origin.replace(year=rng.randint(1990, 2030))
+    unit = tpl.start_unit()
+    step = rng.choice([dt.timedelta(hours=5), dt.timedelta(hours=13), dt.timedelta(days=1), dt.timedelta(minutes=90)])
+    doydir = "{doy}" in dirs
+    files = []
+    t = origin - rng.randint(0, 6) * step
+    for i in range(rng.choice([2, 5, 9, 16, max_files])):
+        t0 = trunc_unit(t, unit)
+        t = t + step * rng.choice([0, 1, 1, 2, 3])
+        users = {u: rng.choice(USER_VALUES[u]) for u in tpl.users()}
+        stars = [rng.choice(STAR_TEXTS) for _ in range(tpl.n_stars())]
+        over = {}
+        if doydir:
+            k = next(i_ for i_, c in enumerate(dirs) if "{doy}" in c)
+            if rng.random() < 0.5:
+                n = rng.choice([0, 0, 1, 59, 60, 365, 366, 366, 367])
+                d0 = dt.datetime(t0.year, 1, 1) + dt.timedelta(days=n - 1)
+                try:
+                    t0 = t0.replace(month=d0.month, day=d0.day)      # the year stays, as coded
+                except ValueError:
+                    continue
+                over[f"{k}:doy"] = n
+        elif rng.random() < 0.55:
+            if rng.random() < 0.5:
+                other = t0 + dt.timedelta(days=rng.choice([-40, -1, 1, 1, 2, 31]))
+                m, d = other.month, other.day
+            else:
+                m, d = rng.choice(BAD_MONTH_DAY)
+            for k, c in enumerate(dirs):
+                if "{month}" in c:
+                    over[f"{k}:month"] = m
+                if "{day}" in c:
+                    over[f"{k}:day"] = d
+        files.append(File(i, t0, t0, users, stars, over))
+    return tpl, _dedupe(tpl, files)[:max_files]
+
+
+def decoy_dirs(rng, tpl, files, n=3):
+    """relative directory chains that hold no file: impossible dates next to the real directories"""
+    out = []
+    cand = [k for k in range(len(tpl.dirs)) if set(tpl.chunk_fields(k)) & {"month", "day", "doy", "hour"}]
+    if not cand or not files:
+        return out
+    for _ in range(n):
+        f = rng.choice(files)
+        if f.t0.year < 2:
+            continue
+        k = rng.choice(cand)
+        fld = rng.choice(sorted(set(tpl.chunk_fields(k)) & {"month", "day", "doy", "hour"}))
+        val = {"month": [13, 0], "day": [0, 30, 31, 32], "doy": [0, 366, 367], "hour": [24, 23]}[fld]
+        g = File(-1, f.t0, f.t1, f.users, f.stars, dict(f.dir_over, **{f"{k}:{fld}": rng.choice(val)}))
+        out.append(render(tpl, g)[:k + 1 + rng.choice([0, 0, len(tpl.dirs) - k - 1])])
+    return out
 
 
 # ---------------------------------------------------------------- trees on disk
@@ -502,6 +603,8 @@ def build_tree(root, tpl, files, rng=None, decoys=True):
         open(p, "w").close()
         paths[p] = f.id
     if decoys and rng is not None and files:
+        for comps in decoy_dirs(rng, tpl, files, rng.choice([0, 1, 3])):
+            os.makedirs(os.path.join(root, *comps), exist_ok=True)
         for _ in range(rng.choice([0, 0, 1, 2])):
             f = rng.choice(files)
             d = os.path.join(root, *f.rel[:rng.randint(0, len(f.rel) - 1)])
